@@ -15,6 +15,7 @@ import (
 type Prelude struct {
 	Name     string
 	Theories []string
+	IsTypes  []string
 	Boxes    []string
 	Types    []string
 	Items    []PreludeItem
@@ -148,6 +149,9 @@ func LoadPrelude(name string) (*Prelude, error) {
 		if strings.HasPrefix(l, ";; box ") {
 			p.Boxes = append(p.Boxes, strings.TrimSpace(l[7:]))
 		}
+		if strings.HasPrefix(l, ";; istype ") {
+			p.IsTypes = append(p.IsTypes, strings.TrimSpace(l[10:]))
+		}
 		if strings.HasPrefix(l, ";; theory ") {
 			p.Theories = append(p.Theories, strings.TrimSpace(l[10:]))
 		}
@@ -240,6 +244,24 @@ func (ex *Exec) usePrelude(name string) error {
 			return fmt.Errorf("prelude %s: %v", name, err)
 		}
 		ex.U.boxName(t)
+	}
+	for _, d := range p.IsTypes {
+		// ";; istype name T" defines the predicate name(a Any) that holds exactly of the boxed values of dynamic type T
+		f := strings.Fields(d)
+		if len(f) != 2 {
+			return fmt.Errorf("prelude %s: bad istype directive %q", name, d)
+		}
+		t, err := ex.P.ResolveType(f[1])
+		if err != nil {
+			return fmt.Errorf("prelude %s: %v", name, err)
+		}
+		ex.U.SortOf(t)
+		ex.U.boxName(t)
+		if !ex.U.declSet[f[0]] {
+			ex.U.decls = append(ex.U.decls, fmt.Sprintf("(define-fun %s ((a Any)) Bool (= (tagOf a) %d))", f[0], ex.U.Tag(t)))
+			ex.U.funs[f[0]] = &FunSig{f[0], []*Sort{SAny}, SBool}
+			ex.U.declSet[f[0]] = true
+		}
 	}
 	for _, th := range p.Theories {
 		if th == "rules" {
@@ -457,9 +479,13 @@ func (ex *Exec) Run() {
 	}
 	// preconditions of interface contracts are NOT assumed for the body: they are antecedents of the interface's own
 	// postconditions only (the implementation's own contract must hold under its own preconditions alone)
-	ifaceReq := map[*Contract]Term{}
+	type ifaceReqT struct {
+		tags []string
+		t    Term
+	}
+	ifaceReq := map[*Contract][]ifaceReqT{}
 	for _, ic := range ex.ifaceContractsFor() {
-		var reqs []Term
+		var reqs []ifaceReqT
 		for _, cl := range ic.Of("requires") {
 			env := &SpecEnv{st: ex.st, old: ex.entry, names: ex.ifaceNames(nil), pkg: fi.Pkg.Types}
 			t, err := ex.specTerm(cl.Expr, env)
@@ -467,9 +493,9 @@ func (ex *Exec) Run() {
 				ex.contractError(cl, err)
 				continue
 			}
-			reqs = append(reqs, t)
+			reqs = append(reqs, ifaceReqT{cl.Tags, t})
 		}
-		ifaceReq[ic] = And(reqs...)
+		ifaceReq[ic] = reqs
 	}
 	nReq := len(ex.facts)
 	// cover: the entry state under the preconditions must be satisfiable
@@ -511,6 +537,11 @@ func (ex *Exec) Run() {
 	if len(ex.resVars) == 1 {
 		names["result"] = final.vars[ex.resVars[0]]
 	}
+	for i, rv := range ex.resVars {
+		if _, taken := names[fmt.Sprintf("result%d", i)]; !taken {
+			names[fmt.Sprintf("result%d", i)] = final.vars[rv]
+		}
+	}
 	if con != nil && !con.Assumed {
 		for k, cl := range con.Of("ensures") {
 			env := &SpecEnv{st: final, old: ex.entry, names: names, pkg: fi.Pkg.Types}
@@ -539,7 +570,13 @@ func (ex *Exec) Run() {
 			if id == "" {
 				id = fmt.Sprintf("e%d", k+1)
 			}
-			ex.assertAt(final, fmt.Sprintf("post:%s#%s.%s", fi.Name, ic.Func, id), "post", ex.clauseTagsOf(cl, ic), Implies(ifaceReq[ic], t), cl.Text, ex.P.pos(fi.Body()))
+			var ante []Term
+			for _, r := range ifaceReq[ic] {
+				if scopedTo(r.tags, cl.Tags) {
+					ante = append(ante, r.t)
+				}
+			}
+			ex.assertAt(final, fmt.Sprintf("post:%s#%s.%s", fi.Name, ic.Func, id), "post", ex.clauseTagsOf(cl, ic), Implies(And(ante...), t), cl.Text, ex.P.pos(fi.Body()))
 		}
 	}
 	// canary: false must not be provable at the exit
